@@ -148,5 +148,8 @@ pub fn run(p: &Params) -> Run {
     // sixth stream: what the follow executor SHOWS (screen after every refresh = batch output over the lines so far)
     crate::c11x::executor_stream(&mut run, &mut rng, p.n(150, 3_000));
     run.notes.push("statements without LIMIT (SELECT and aggregate, DISTINCT, HAVING) fed line by line with the default config; every prefix compared with a fresh batch run".to_owned());
+    // the whole program in follow mode: raw texts, a real growing file, every output format (Props/PipelineFollow.lean)
+    let mut frng = Rng::new(p.seed ^ 0xC11e2ef);
+    for focus in &["group", "distinct"] { crate::e2ef::stream(&mut run, &mut frng, p.n(100, 2000), focus); }
     run
 }
